@@ -28,7 +28,13 @@ def core_tree(rng, depth):
     if k == "if":
         return ast.IfExp(test=r(), body=r(), orelse=r())
     if k == "lam":
-        return ast.Lambda(args=G.args(), body=r())
+        po = ["p", "q"][:rng.choice([0, 0, 1, 2])]
+        ar = ["r", "s"][:rng.choice([0, 1, 2])]
+        ko = ["k", "m"][:rng.choice([0, 0, 1, 2])]
+        return ast.Lambda(args=G.args(posonly=po, a=ar, vararg=rng.choice([None, None, "va"]), kwonly=ko,
+                                      kw_defaults=[(r() if rng.random() < 0.5 else None) for _ in ko],
+                                      kwarg=rng.choice([None, None, "kw"]),
+                                      defaults=[r() for _ in range(rng.randint(0, len(po) + len(ar)))]), body=r())
     if k == "wal":
         return ast.NamedExpr(target=G.S("w"), value=r())
     if k == "attr":
@@ -71,8 +77,8 @@ def run(chk, build, replay=None):
         "C03: Parse.pc is a hand-written model of CPython's expression parser on the operator core (tokens from CPython's "
         "tokenizer); it is validated against ast.parse on the unparser's outputs and on standard-library expressions of "
         "the core; literals are opaque tokens (their spelling is C04's theorem)",
-        "C03: outside the core of Parse.v (displays, comprehensions, keyword/starred arguments, slices, lambda parameters, "
-        "f-strings, yield/await) the round trip is decided by CPython's own parser on every generated composition (support)",
+        "C03: outside the core of Parse.v (generator expressions, f-strings, yield/await, nested comprehension targets) the "
+        "round trip is decided by CPython's own parser on every generated composition (support)",
     ]
     sys.setrecursionlimit(20000)
     rng = random.Random(chk.seed * 17 + 3)
